@@ -7,6 +7,45 @@
 
 #include <primitiv/core/mixins/nonmovable.h>
 
+/*
+ * Verification hook (no effect unless PRIMITIV_VERIF is defined).
+ * PRIMITIV_VERIF_YIELD(tag) marks a scheduling point immediately before a
+ * shared-memory access of the spinlocks. With PRIMITIV_VERIF defined it calls
+ * the function installed in primitiv::verif::yield_hook() (if any), which lets
+ * a test harness run the real code under a controlled thread interleaving.
+ * Without PRIMITIV_VERIF the macro expands to nothing.
+ */
+#ifdef PRIMITIV_VERIF
+namespace primitiv {
+namespace verif {
+enum YieldTag {
+  SPIN_FLAG = 1,          // Spinlock: test_and_set / clear of ready_
+  RSPIN_TRY_TAS = 10,     // RecursiveSpinlock::try_lock: test_and_set
+  RSPIN_TRY_RD_OWNER = 11,   // ... read of locked_thread_id_
+  RSPIN_TRY_WR_OWNER = 12,   // ... write of locked_thread_id_
+  RSPIN_TRY_INC_COUNT = 13,  // ... ++lock_count_
+  RSPIN_UNL_RD_OWNER = 20,   // RecursiveSpinlock::unlock: read of locked_thread_id_
+  RSPIN_UNL_DEC_COUNT = 21,  // ... --lock_count_
+  RSPIN_UNL_WR_OWNER = 22,   // ... reset of locked_thread_id_
+  RSPIN_UNL_CLEAR = 23       // ... clear of ready_
+};
+typedef void (*YieldHook)(int);
+inline std::atomic<YieldHook> &yield_hook() {
+  static std::atomic<YieldHook> hook(nullptr);
+  return hook;
+}
+inline int yield(int tag) {
+  const YieldHook f = yield_hook().load(std::memory_order_acquire);
+  if (f) f(tag);
+  return tag;
+}
+}  // namespace verif
+}  // namespace primitiv
+#define PRIMITIV_VERIF_YIELD(tag) ::primitiv::verif::yield(::primitiv::verif::tag);
+#else
+#define PRIMITIV_VERIF_YIELD(tag)
+#endif
+
 namespace primitiv {
 
 /**
@@ -14,6 +53,11 @@ namespace primitiv {
  */
 class Spinlock : mixins::Nonmovable<Spinlock> {
   std::atomic_flag ready_ = ATOMIC_FLAG_INIT;
+#ifdef PRIMITIV_VERIF
+  // The bodies below are one-liners; under the guard every later use of
+  // `ready_` in this class is preceded by a scheduling point.
+#define ready_ (::primitiv::verif::yield(::primitiv::verif::SPIN_FLAG), ready_)
+#endif
 
 public:
   /**
@@ -33,6 +77,9 @@ public:
    */
   void unlock() { ready_.clear(std::memory_order_release); }
 };
+#ifdef PRIMITIV_VERIF
+#undef ready_
+#endif
 
 /**
  * Spinlock object which with std::mutex like interface, and can lock them
@@ -51,13 +98,17 @@ public:
    */
   bool try_lock() {
     const std::thread::id this_thread_id = std::this_thread::get_id();
+    PRIMITIV_VERIF_YIELD(RSPIN_TRY_TAS)
     if (ready_.test_and_set(std::memory_order_acquire)) {
+      PRIMITIV_VERIF_YIELD(RSPIN_TRY_RD_OWNER)
       if (locked_thread_id_ != this_thread_id) {
         return false;
       }
     } else {
+      PRIMITIV_VERIF_YIELD(RSPIN_TRY_WR_OWNER)
       locked_thread_id_ = this_thread_id;
     }
+    PRIMITIV_VERIF_YIELD(RSPIN_TRY_INC_COUNT)
     ++lock_count_;
     return true;
   }
@@ -71,11 +122,15 @@ public:
    * Releases the privilege.
    */
   void unlock() {
+    PRIMITIV_VERIF_YIELD(RSPIN_UNL_RD_OWNER)
     if (locked_thread_id_ != std::this_thread::get_id()) {
       return;
     }
+    PRIMITIV_VERIF_YIELD(RSPIN_UNL_DEC_COUNT)
     if (--lock_count_ == 0) {
+      PRIMITIV_VERIF_YIELD(RSPIN_UNL_WR_OWNER)
       locked_thread_id_ = std::thread::id();
+      PRIMITIV_VERIF_YIELD(RSPIN_UNL_CLEAR)
       ready_.clear(std::memory_order_release);
     }
   }
